@@ -151,11 +151,56 @@ def c_free_vars(node):
     return out
 
 
-def c_eval(node, env):
+C_SIZEOF = {"char": 1, "unsigned char": 1, "uint8_t": 1, "int8_t": 1, "short": 2, "int16_t": 2, "uint16_t": 2, "int": 4, "unsigned int": 4, "int32_t": 4, "uint32_t": 4,
+            "long": 8, "int64_t": 8, "uint64_t": 8, "size_t": 8}
+
+
+def c_eval(node, env, cu=None, depth=0):
     """Value of a side-effect-free integer C expression from the clang AST under `env` (name -> int). Comparison and
-    logical operators give 0 / 1 and && || ?: short-circuit; division truncates. Anything else raises CEvalError."""
+    logical operators give 0 / 1 and && || ?: short-circuit; division truncates. With `cu` (the translation unit) calls of
+    functions whose body is a single `return <expr>;` are inlined and sizeof(<scalar type>) is evaluated (LP64).
+    Anything else raises CEvalError."""
     k = node.get("kind")
     inner = node.get("inner", []) or []
+    if cu is not None:
+        sub = lambda n_, e_=env: c_eval(n_, e_, cu, depth)  # noqa: E731
+        if k == "UnaryExprOrTypeTraitExpr" and node.get("name") == "sizeof":
+            t = (node.get("argType") or {}).get("qualType")
+            if t is None and inner:
+                t = (inner[0].get("type") or {}).get("qualType")
+            if t and t.endswith("*"):
+                return 8
+            if t in C_SIZEOF:
+                return C_SIZEOF[t]
+            raise CEvalError(f"sizeof({t})")
+        if k == "CallExpr" and depth < 4:
+            callee = None
+            for x in cu.walk(inner[0]):
+                if x.get("kind") == "DeclRefExpr" and x.get("referencedDecl", {}).get("kind") == "FunctionDecl":
+                    callee = x["referencedDecl"]["name"]
+            fn = cu.functions.get(callee)
+            if fn is None:
+                raise CEvalError(f"call of {callee}")
+            params = [p_.get("name") for p_ in fn.get("inner", []) if p_.get("kind") == "ParmVarDecl"]
+            body = [x for x in fn.get("inner", []) if x.get("kind") == "CompoundStmt"]
+            if len(body) != 1 or len(body[0].get("inner", [])) != 1 or body[0]["inner"][0].get("kind") != "ReturnStmt" or len(params) != len(inner) - 1:
+                raise CEvalError(f"call of {callee}: not a single-return helper")
+            args = [sub(a_) for a_ in inner[1:]]
+            return c_eval(body[0]["inner"][0]["inner"][0], dict(zip(params, args)), cu, depth + 1)
+        if k in ("ImplicitCastExpr", "ParenExpr", "CStyleCastExpr", "ConstantExpr"):
+            return sub(inner[-1])
+        if k == "ConditionalOperator":
+            return sub(inner[1]) if sub(inner[0]) else sub(inner[2])
+        if k == "UnaryOperator":
+            return c_eval({**node, "inner": [{"kind": "IntegerLiteral", "value": str(sub(inner[0]))}]}, env)
+        if k == "BinaryOperator" and node.get("opcode") not in ("&&", "||"):
+            lit = lambda v_: {"kind": "IntegerLiteral", "value": str(v_)}  # noqa: E731
+            return c_eval({**node, "inner": [lit(sub(inner[0])), lit(sub(inner[1]))]}, env)
+        if k == "BinaryOperator":
+            a_ = sub(inner[0])
+            if node.get("opcode") == "&&":
+                return 1 if (a_ and sub(inner[1])) else 0
+            return 1 if (a_ or sub(inner[1])) else 0
     if k in ("ImplicitCastExpr", "ParenExpr", "CStyleCastExpr", "ConstantExpr"):
         return c_eval(inner[-1], env)
     if k == "IntegerLiteral":
